@@ -87,8 +87,11 @@ def _q(x):
 
 
 def gen_scenario(rng, ranks=None, kernels=None, host=None, wraps=True, be_ratio=0.5, hexfmt=True, jobs_per_rank=1,
-                 metadata=True, globals_=True, overlap_depth=2, freq=None, zero_dur=True, user_keys=True):
-    """Generate one well-formed scenario.  Returns Scenario."""
+                 metadata=True, globals_=True, overlap_depth=2, freq=None, zero_dur=True, user_keys=True,
+                 per_rank_tids=None):
+    """Generate one well-formed scenario.  Returns Scenario.
+    per_rank_tids: thread ids are those of the rank's own process (distinct across ranks, as OS thread ids are) instead
+    of the same small set of numbers in every rank file; None = decided at random (30 %)."""
     s = Scenario()
     s.freq = float(freq or rng.choice([256, 512, 1024, 1024, 2048]))
     f = int(s.freq)
@@ -239,6 +242,19 @@ def gen_scenario(rng, ranks=None, kernels=None, host=None, wraps=True, be_ratio=
                     out.append(dict(e, ph="X", dur=_q(b - a)))
             s.files[f"rank{r}_job{job}.json"] = out
     s.meta["wraps"] = nwraps
+    if per_rank_tids is None:
+        per_rank_tids = rng.random() < 0.3
+    if per_rank_tids:
+        def own(rank, tid):
+            return tid + 100003 * (rank + 1) if isinstance(tid, int) else tid
+        for evs in s.files.values():
+            for e in evs:
+                if "tid" in e and isinstance(e.get("pid"), int):
+                    e["tid"] = own(e["pid"], e["tid"])
+        for t in s.truth.values():
+            if "tid" in t:
+                t["tid"] = own(t["rank"], t["tid"])
+        s.meta["per_rank_tids"] = True
     return s
 
 
